@@ -36,6 +36,13 @@ def handleBsf : Handler := fun j a => do
       | some me => (match me.slave with | some s => s.state == .running && s.masterHost == sf | none => false)
       | none => false
     if (healthy || already) && res != sf then a := a.violationSig "C16:configured-healthy-source-not-chosen" j.compress
+    -- "otherwise the nearest HEALTHY ancestor, otherwise the master": an answer that is neither the configured source nor
+    -- the master is healthy (the "already streamed from" shortcut is for the configured source only)
+    if res != sf && res != master && res != self then
+      let resHealthy := match cs.get? res with
+        | some c => c.pingOk && !c.isOffline && reasonableLag reasonable c
+        | none => false
+      if !resHealthy then a := a.violationSig "C16:resolved-to-an-unhealthy-ancestor" j.compress
   a := a.note (sf != "" && sf != master)
   a := a.tag (if res == "PANIC" then "bsf:panic" else if res == master then "bsf:master" else if res == sf then "bsf:configured" else "bsf:ancestor")
   a := a.sample j.compress 1
